@@ -33,8 +33,9 @@ def stretch_strobe_signal(m, strobe, *, to_cycles, output=None, domain=None, all
         output = Signal()
 
     # Special case: if to_cycles is '1', we don't need to modify the strobe.
-    # Connect it through directly.
-    if to_cycles == 1:
+    # Connect it through directly -- unless we've been asked for the delayed (registered) variant,
+    # which the general case below provides for a single cycle, too.
+    if to_cycles == 1 and not allow_delay:
         m.d.comb += output.eq(strobe)
         return output
 
